@@ -54,7 +54,7 @@ def _clean_bindings(body):
     return out
 
 
-def _dirty_write_blocks(body, defs, enum):
+def _dirty_write_blocks(body, defs, enum, _depth=0):
     """blocks containing an assignment, to a place whose type mentions the state enum, of a value built from a
     dirty-variant aggregate (and from no clean-variant aggregate)"""
     short = enum
@@ -74,7 +74,51 @@ def _dirty_write_blocks(body, defs, enum):
                 ags += [v for a, v, _, _ in slice_aggregates(sl) if a == enum]
         if ags and all(v in STATES[enum]['dirty'] for v in ags):
             blocks[bb] = ags
+    # a call of a private helper that re-tags the state it is handed (`self.0.mark_as_updated()`) is a dirty write
+    if _depth == 0:
+        markers = _dirty_markers(body.fb, enum)
+        for bb, t in body.calls():
+            c = strip_generics(callee(t) or '')
+            if c in markers and t['aty'] and t['aty'][0].startswith('&mut ') and enum in strip_generics(t['aty'][0]):
+                blocks.setdefault(bb, ['via ' + c.split('::')[-1]])
     return blocks
+
+
+_MARKERS = {}
+
+
+def _dirty_markers(fb, enum):
+    """functions of the session crate that take `&mut <state enum>` as their first parameter and, whenever the state is in a clean variant,
+    overwrite it with a dirty one on every path to their return"""
+    key = (id(fb), enum)
+    if key in _MARKERS:
+        return _MARKERS[key]
+    out = set()
+    for f in fb.bodies(CR):
+        if f.is_promoted or f.nid != f.nroot or f.raw['argc'] < 1 or not f.locals[1].startswith('&mut ') or enum not in strip_generics(f.locals[1]):
+            continue
+        fdefs = Defs(f)
+        dirty = _dirty_write_blocks(f, fdefs, enum, _depth=1)
+        if not dirty:
+            continue
+        rets = set(f.return_blocks())
+        ok, seen = True, False
+        from ..tables import enum_switches, switch_edges
+        for sb, w in enum_switches(f, enum):
+            if w['src']['l'] != 1:
+                continue
+            e = switch_edges(w)
+            for v in STATES[enum]['clean']:
+                tg = e.get(v, w.get('else'))
+                if tg is None:
+                    continue
+                seen = True
+                if f.reachable([tg], avoid=set(dirty)) & rets and tg not in dirty:
+                    ok = False
+        if seen and ok:
+            out.add(f.nroot)
+    _MARKERS[key] = out
+    return out
 
 
 def _nochange_targets(body, mbb, mterm):
@@ -307,6 +351,13 @@ def r2_sync_table(ctx):
         # error discipline
         dest = t['dest']
         derived = forward_derived(b, {dest['l']}, through_calls=True)
+        # the value of an awaited private helper that was inlined travels through `Poll::Ready(value)`: follow it
+        for _ in range(4):
+            more = {st['lhs']['l'] for _, _, st in b.all_assigns() if not st['lhs'].get('p') and st['rv']['k'] == 'agg' and st['rv'].get('ak') == 'adt'
+                    and strip_generics(st['rv']['adt']) == 'core::task::poll::Poll' and any(op_place(o) is not None and op_place(o)['l'] in derived for o in st['rv']['ops'])}
+            if more <= derived:
+                break
+            derived = forward_derived(b, derived | more, through_calls=True)
         handled = None
         tolerated = set()
         for b2, t2 in b.calls():
@@ -322,6 +373,37 @@ def r2_sync_table(ctx):
                     handled = 'matched explicitly'
                 elif e.startswith('pavex_session::store_::errors::'):
                     tolerated |= {n for n, _ in t2['ts']}
+        if handled is None:
+            # the helper hands the Result back to its caller (`self.store.create(..).await` as the tail expression of a private helper):
+            # the discipline is then the caller's — every call of the helper in the family propagates or matches what it returns
+            returned = False
+            for xb, j, st in b.all_assigns():
+                if st['lhs'].get('l') == 0 and not st['lhs'].get('p'):
+                    ops, pls = rv_operands(st['rv'])
+                    if any(op_place(o) is not None and op_place(o)['l'] in derived for o in ops) or any(q['l'] in derived for q in pls):
+                        returned = True
+            if returned:
+                callers_ok, n_callers = True, 0
+                for it2 in fam:
+                    for b3 in fam[it2]:
+                        for cb, ct in b3.calls():
+                            if strip_generics(callee(ct) or '') != b.nroot or ct['dest'].get('p'):
+                                continue
+                            n_callers += 1
+                            der3 = forward_derived(b3, {ct['dest']['l']}, through_calls=True)
+                            ok3 = any(callee(t4) == 'core::ops::try_trait::Try::branch' and op_place(t4['args'][0]) is not None and op_place(t4['args'][0])['l'] in der3
+                                      for _, t4 in b3.calls())
+                            for b4 in b3.live_blocks():
+                                t4 = b3.term(b4)
+                                if t4 and t4['k'] == 'switch' and 'enum' in t4 and t4['src']['l'] in der3:
+                                    e4 = strip_generics(t4['enum'])
+                                    if e4 == 'core::result::Result':
+                                        ok3 = True
+                                    elif e4.startswith('pavex_session::store_::errors::'):
+                                        tolerated |= {n for n, _ in t4['ts']}
+                            callers_ok = callers_ok and ok3
+                if n_callers and callers_ok:
+                    handled = 'returned to the caller (%d call site(s)), which propagates or matches it' % n_callers
         ok = handled is not None and tolerated <= TOLERATED_ERR_VARIANTS
         ctx.ob('C11.R2', 'errors|%s|%s' % (meth, where), ok, b.loc(bb, t),
                'result of store.%s: %s; explicitly distinguished error variants: %s' % (
